@@ -201,7 +201,7 @@ impl Runner {
     pub fn pick_new_set(&mut self, allow_lp: bool) -> Option<[AssetRef; 2]> {
         let mut assets = self.all_assets();
         if allow_lp {
-            for i in 0..self.sim.model.pairs.len().min(12) {
+            for i in 0..self.sim.model.pairs.len().min(if self.sim.model.pairs.len() > 60 { 40 } else { 12 }) {
                 assets.push(AssetRef::Lp(i));
             }
         }
@@ -281,6 +281,10 @@ impl Runner {
             // a registry well beyond every page-size constant of the listing (10, 30, 2 x 30)
             np = self.rng.range(41, 95);
             self.cov.reach("gen.big_registry");
+        } else if self.profile.registry_heavy && self.profile.n_pairs.1 >= 40 && self.rng.chance(1, 100) {
+            // and, rarely, a registry of a few hundred pairs
+            np = self.rng.range(150, 320);
+            self.cov.reach("gen.huge_registry");
         }
         for _ in 0..np {
             let allow_lp = self.profile.registry_heavy;
